@@ -410,6 +410,11 @@ func (l *log) delete(offsets map[int64]struct{}) ([]Message, int64, error) {
 			l.writerMu.Unlock()
 			return nil, 0, err
 		}
+	} else if rdr.head {
+		// the head segment rolled over since it was chosen and its reader
+		// was replaced: choose again
+		l.writerMu.Unlock()
+		return l.delete(offsets)
 	}
 	l.writerMu.Unlock()
 
